@@ -93,6 +93,60 @@ def split_findings(prop, findings):
     return old, new
 
 
+RULE_GLOSSARY = {
+    'A1': 'ownership/alias may-analysis: no caller-owned object (or view, or field holding it) reaches an in-place sink',
+    'A1-field': 'fields that store a caller object are not mutated (or the site is a named, reasoned exemption)',
+    'A2': 'getters / stateless helpers modify no stored array or container in place',
+    'L1': 'every state write of a public mutator is followed on every path by invalidation of every dependent lazy cache',
+    'L2': 'cache-presence branches agree with the getter', 'L3': 'kill/use typestate of memory-saving deletions',
+    'L4': 'aperture descriptors reset every cache before storing; positions are stored as a private copy; no narrower override',
+    'L5': 'memo key covers everything the memoised value depends on',
+    'LP1': 'no container entry carried from one loop iteration (source) to the next', 'LP1b': 'no pre-loop array modified in place with a per-iteration value',
+    'LP1c': 'no loop-local used on a path of the iteration that did not assign it (incl. swallowed exceptions)',
+    'LP2': 'first-iteration actions cannot be skipped', 'LP3': 'parallel result lists receive the same appends', 'LP4': 'registered arrays are cut with the same slice variable',
+    'SPEC': 'a statement / return / condition has the documented formula (algebraic normal form, accepted alternatives listed)',
+    'SIB': 'sibling implementations agree', 'CLONE': 'near-clone methods of sibling classes are exact clones up to an accepted table',
+    'LOOP-TWIN': 'a while-loop re-evaluates its control value with the expression that initialised it',
+    'T-AXIS': 'x/y pairing by naming convention incl. external coordinate-order models', 'T-MIRROR': 'axis-mirrored statement pairs carry no copy-paste signature',
+    'T-FRAME': 'image-frame and cutout-frame twins differ by exactly the origin', 'T-ORDER': 'group-ordered values pass _order_by_id/_ungroup before publication',
+    'T-SLOT': 'tuple/table slots of writer and reader agree', 'T-FAMILY': 'sum_method-family values never derive from centre-method masks', 'T-CARD': 'one entry per label',
+    'FWD': 'every option a function holds is forwarded to the callee that implements it', 'DEADSTORE': 'no assigned-but-never-read local (misspelt target)',
+    'NONFINITE': 'announced non-finite handling is isfinite-based', 'SCALE': 'no absolute tolerance in code that must be scale-equivariant',
+    'GUARD': 'a step runs under exactly the allowed conditions', 'RELABEL': 'final relabel structure', 'MERGE': 'merge statements of deblend_sources',
+    'SCHED': 'as_completed loop body only stores results[submission index]', 'TABLE': 'finite-domain abstract interpretation of the method table',
+    'UNIT': 'angles are converted to a stated unit before their bare number is taken', 'UNIT-LAST': 'no bare value stored into a local after units were attached',
+    'USERCOL': 'guard of every init_params column store entails "column not supplied"', 'DTYPE': 'dtype-kind dataflow (NaN store / in-place float op on a caller-dtype array)',
+    'QTY': 'Quantity-capable inputs are unit-checked together', 'CASTDT': 'no foreign value forced into the image dtype', 'CONV': 'integer images converted to float',
+    'CACHE-PURE': 'no method modifies a cached property value in place', 'GETITEM': '__getitem__ carries every attribute over', 'SHARE': 'by-reference shared containers are never mutated',
+    'SCALAR-SHAPE': 'per-source indexing of @as_scalar values is scalar-safe', 'DECOR': 'decorator stacks / as_scalar wrapper', 'ECALL': 're-entrancy of call-like entries',
+    'ATOMIC': 'coupled state updated all-or-nothing', 'COUPLED': 'label array and deblend map change together', 'MIRROR': 'mirrored expressions (error like data, rms like bkg)',
+    'LABEL-EQ': 'label-array cutouts are compared with `label` inside per-label loops', 'ROUND': 'no round-half-to-even call', 'KEYPAIR': 'column-key copy-paste signature',
+    'TRUTHY': 'optional numeric parameters tested against None', 'AXIS-DISPATCH': 'axis-neutral code after a per-axis dispatch', 'LATE-UPDATE': 'a mask is complete before it is merged',
+    'WHO': 'who may call', 'MUST-PASS': 'must pass through', 'D1': 'mask builders', 'D2': 'return/None discipline', 'D3': 'who may seed private state', 'NEGZERO': 'negative-zero slice',
+    'PRF': 'pixel-integrated PRF pattern', 'TWIN': 'scalar and array forms of one transform agree', 'FIXED': 'fixed-parameter flags handed on', 'SLOT': 'profile/area/error slots',
+    'CLASS-MUTABLE': 'no mutable class attribute modified through self', 'LIVENESS': 'seeded in-memory faults are reported', 'SEEDED': 'stored independently written changes are reported',
+    'BENIGN': 'silent on behaviour-preserving whole-package variants',
+}
+
+
+def _per_rule_samples(samples, per_rule=4):
+    seen, out = {}, []
+    for s_ in samples:
+        r = s_.get('rule') if isinstance(s_, dict) else None
+        if seen.get(r, 0) < per_rule:
+            seen[r] = seen.get(r, 0) + 1
+            out.append(s_)
+    return out[:160]
+
+
+def _renames():
+    try:
+        from . import canon
+        return [list(x) for x in canon.RENAMES[:20]]
+    except Exception:
+        return []
+
+
 def write_evidence(res, tier, seed, wall, nviol, known_hits):
     os.makedirs(EVIDENCE_DIR, exist_ok=True)
     cov = {
@@ -106,7 +160,9 @@ def write_evidence(res, tier, seed, wall, nviol, known_hits):
                 'to decide it; distinct = distinct (rule, description) pairs',
         'rule_instances': res.rule_instances,
         'floors': res.floors,
-        'samples': res.samples[:40] or [{'note': 'no obligations'}],
+        'samples': _per_rule_samples(res.samples) or [{'note': 'no obligations'}],
+        'rule_glossary': {r: RULE_GLOSSARY.get(r, 'see DESIGN.md section 3') for r in sorted(res.rule_instances)},
+        'local_renames_undone': _renames(),
         'exhaustive': bool(res.exhaustive_rules),
         'exhaustive_rules': res.exhaustive_rules,
         'findings_known': [f.to_json() for f, _ in known_hits],
